@@ -14,6 +14,7 @@ from pyasn1.compat.octets import (int2oct, oct2int, ints2octs, null,
                                   str2octs, isOctetsType)
 from pyasn1.type import base
 from pyasn1.type import char
+from pyasn1.type import constraint
 from pyasn1.type import tag
 from pyasn1.type import univ
 from pyasn1.type import useful
@@ -192,10 +193,14 @@ class BitStringEncoder(AbstractItemEncoder):
             value = asn1Spec.clone(value)
 
         valueLength = len(value)
+
+        # padding bits and chunks are not values of the type: subtype
+        # constraints (e.g. SIZE) must not be applied to them
+        alignedValue = value.clone(
+            subtypeSpec=constraint.ConstraintsIntersection())
+
         if valueLength % 8:
-            alignedValue = value << (8 - valueLength % 8)
-        else:
-            alignedValue = value
+            alignedValue = alignedValue << (8 - valueLength % 8)
 
         maxChunkSize = options.get('maxChunkSize', 0)
         if not maxChunkSize or len(alignedValue) <= maxChunkSize * 8:
